@@ -273,6 +273,10 @@ func c09Main(r *engine.Run) {
 	r.Extra["type_pairs_covered"] = len(typePairs)
 	r.Sample("pair", pairCase{A: ops[n/3].WKT, B: ops[n-20].WKT})
 	{
+		tj := TJunctionPairs(level)
+		if r.Parallel(len(tj), func(k int) { c09Pair(r, tj[k][0], tj[k][1], true) }) {
+			r.Bound(fmt.Sprintf("T-junction family: %d pairs (a vertex of B on the interior of a long edge of A at every integer position)", len(tj)))
+		}
 		cp := ConcurrentPairs(level)
 		if r.Parallel(len(cp), func(k int) { c09Pair(r, cp[k][0], cp[k][1], k%4 == 0) }) {
 			r.Bound(fmt.Sprintf("concurrent family: %d pairs with three edge interiors through one non-vertex lattice point", len(cp)))
